@@ -5,11 +5,11 @@ package main
 // claim and is listed in the evidence (Exec.stubs).
 
 import (
-	"sort"
 	"fmt"
 	"go/types"
 	"math"
 	"math/big"
+	"sort"
 	"strconv"
 	"strings"
 
